@@ -60,6 +60,20 @@ def search(ctx, scale, hints):
         for j in range(0, len(lines), 3):
             if (out[j] == '1') != (out[j + 1] == out[j + 2]):
                 fails.append(('equality %s but encodings %s / %s (build %s)' % (out[j], out[j + 1], out[j + 2], b), {'build': b, 'script': lines[j:j + 3], 'output': out[j:j + 3]}, {'class': 'eq_vs_enc', 'build': b}))
+        # the same for affine points: eq iff same serialisation, over pairs drawn within one family (both coset representatives) and across
+        if b == 'ark':
+            lines = []
+            afam = [[pyref.aff(c) for c in f] + [tuple((Q - v) % Q for v in pyref.aff(f[0]))] for f in fam]
+            for _ in range(40 * scale):
+                f1 = ctx.rng.choice(afam); f2 = ctx.rng.choice(afam) if ctx.rng.below(3) == 0 else f1
+                a = ctx.rng.choice(f1); c = ctx.rng.choice(f2)
+                lines += ['af.eq %s %s' % (Af(a), Af(c)), 'af.ser %s' % Af(a), 'af.ser %s' % Af(c)]
+            for z in ((0, 1), (0, Q - 1)):
+                for w in ((0, 1), (0, Q - 1)): lines += ['af.eq %s %s' % (Af(z), Af(w)), 'af.ser %s' % Af(z), 'af.ser %s' % Af(w)]
+            out = harness.run_script(b, lines)
+            for j in range(0, len(lines), 3):
+                if (out[j] == '1') != (out[j + 1] == out[j + 2]):
+                    fails.append(('affine equality %s but serialisations %s / %s (build %s)' % (out[j], out[j + 1], out[j + 2], b), {'build': b, 'script': lines[j:j + 3], 'output': out[j:j + 3]}, {'class': 'af_eq_vs_enc', 'build': b}))
     return fails
 
 def always(ctx, scale):
